@@ -62,7 +62,7 @@ func init() {
 		Borrows: []Borrow{
 			{From: "C10", Rules: []string{"D7"}, Why: "both sides derive the same keys only while each keeps its account and device keys: a read fault reported as 'no such key' makes the key store generate a new account key over the existing one, after which the contact's derivation no longer matches"},
 		},
-		Run:         runC11,
+		Run: runC11,
 	})
 }
 
@@ -1792,6 +1792,8 @@ type (
 		Path string
 		Len  int // known length + 1; 0 = unknown
 	}
+	// c11Agg: a struct or array VALUE (a private snapshot object whose slots are the fields / elements)
+	c11Agg   struct{ Obj int }
 	c11MapV  struct{ Obj int }
 	c11IterV struct{ Obj int }
 	c11Tuple struct{ E []c11V }
@@ -2020,6 +2022,8 @@ func (ev *c11Eval) reifyD(st *c11State, v c11V, d int) c11V {
 			}
 		}
 		return t
+	case c11Agg:
+		return ev.reifyMem(st, x.Obj, "", d)
 	case c11IterV:
 		return c11T("iter")
 	case c11Tuple:
@@ -2219,6 +2223,11 @@ func (ev *c11Eval) load(st *c11State, p c11V, t types.Type) c11V {
 			return v
 		}
 		if o.Sym != "" {
+			if c11IsAggregate(t) {
+				id, cp := ev.newObj(st)
+				cp.Sym = o.Sym + x.Path
+				return c11Agg{Obj: id}
+			}
 			v := ev.symbolic(st, o.Sym+x.Path, t)
 			o.Slots[x.Path] = v
 			return v
@@ -2229,7 +2238,16 @@ func (ev *c11Eval) load(st *c11State, p c11V, t types.Type) c11V {
 				return c11T("elem", ev.reify(st, whole), c11Str(x.Path[i:]))
 			}
 		}
-		// aggregate
+		// struct / array value: a snapshot that keeps fields and elements apart
+		if c11IsAggregate(t) {
+			id, cp := ev.newObj(st)
+			for k, v := range o.Slots {
+				if strings.HasPrefix(k, x.Path+".") || strings.HasPrefix(k, x.Path+"[") {
+					cp.Slots[strings.TrimPrefix(k, x.Path)] = v
+				}
+			}
+			return c11Agg{Obj: id}
+		}
 		for k := range o.Slots {
 			if strings.HasPrefix(k, x.Path+".") || strings.HasPrefix(k, x.Path+"[") {
 				return ev.reifyMem(st, x.Obj, x.Path, 0)
@@ -2245,12 +2263,39 @@ func (ev *c11Eval) load(st *c11State, p c11V, t types.Type) c11V {
 	return c11T("unknown")
 }
 
+func c11IsAggregate(t types.Type) bool {
+	switch t.Underlying().(type) {
+	case *types.Struct, *types.Array:
+		return true
+	}
+	return false
+}
+
 func (ev *c11Eval) store(st *c11State, addr c11V, v c11V) {
-	if p, ok := addr.(c11Ptr); ok {
-		if o := st.heap[p.Obj]; o != nil {
-			o.Slots[p.Path] = v
+	p, ok := addr.(c11Ptr)
+	if !ok {
+		return
+	}
+	o := st.heap[p.Obj]
+	if o == nil {
+		return
+	}
+	for k := range o.Slots {
+		if strings.HasPrefix(k, p.Path+".") || (strings.HasPrefix(k, p.Path+"[") && p.Path != "") {
+			delete(o.Slots, k)
 		}
 	}
+	if ag, isAgg := v.(c11Agg); isAgg {
+		if src := st.heap[ag.Obj]; src != nil && src.Sym == "" {
+			delete(o.Slots, p.Path)
+			for k, sv := range src.Slots {
+				o.Slots[p.Path+k] = sv
+			}
+			return
+		}
+		v = ev.reify(st, v)
+	}
+	o.Slots[p.Path] = v
 }
 
 // c11Perms returns the iteration orders explored for a map with the given keys.
@@ -2436,6 +2481,9 @@ func (ev *c11Eval) evalInstr(fr *c11Frame, st *c11State, v ssa.Value) c11V {
 		return c11T("fieldaddr", ev.reify(st, ev.val(fr, x.X)))
 	case *ssa.Field:
 		stt := x.X.Type().Underlying().(*types.Struct)
+		if ag, ok := ev.val(fr, x.X).(c11Agg); ok {
+			return ev.load(st, c11Ptr{Obj: ag.Obj, Path: "." + stt.Field(x.Field).Name()}, x.Type())
+		}
 		return c11T("field:"+stt.Field(x.Field).Name(), ev.reify(st, ev.val(fr, x.X)))
 	case *ssa.IndexAddr:
 		idx := "?"
@@ -2450,6 +2498,11 @@ func (ev *c11Eval) evalInstr(fr *c11Frame, st *c11State, v ssa.Value) c11V {
 		}
 		return c11T("indexaddr", ev.reify(st, ev.val(fr, x.X)), ev.reify(st, ev.val(fr, x.Index)))
 	case *ssa.Index:
+		if ag, ok := ev.val(fr, x.X).(c11Agg); ok {
+			if c, isC := ev.val(fr, x.Index).(c11Const); isC && c.V.Kind() == constant.Int {
+				return ev.load(st, c11Ptr{Obj: ag.Obj, Path: "[" + c.V.ExactString() + "]"}, x.Type())
+			}
+		}
 		return c11T("index", ev.reify(st, ev.val(fr, x.X)), ev.reify(st, ev.val(fr, x.Index)))
 	case *ssa.UnOp:
 		a := ev.val(fr, x.X)
